@@ -53,7 +53,7 @@ type StackCfg struct {
 	Orca   string // l1only | l1l2
 	Locked string // none | sr | mr
 	Bits   int
-	L1     string // std | chunked | batched | inmem
+	L1     string // std | chunked | batched | inmem | panicky (std that panics on request)
 }
 
 func (c StackCfg) String() string {
@@ -134,6 +134,8 @@ func GetStack(cfg StackCfg) *Stack {
 		h1 = memcached.Chunked(l1sock)
 	case "batched":
 		h1 = memcached.Batched(l1sock, batched.Opts{BatchSize: 2, BatchDelayMicros: 100})
+	case "panicky":
+		h1 = panickyConst(memcached.Regular(l1sock))
 	default:
 		h1 = memcached.Regular(l1sock)
 	}
